@@ -160,6 +160,30 @@ def random_case(ctx, rng, part):
         rec.skip("map_random", "a scaled value within 1e-6 of a rounding boundary of the level discretisation")
         return
     judge(rec, "map_random", key, spec, ihmax, lv, lab)
+    # the same values handed over in another memory layout / width must give the same map
+    lay = str(rng.choice(["fortran32", "strided32", "c64", "fortran64", "transposed_view"]))
+    if lay == "fortran32":
+        alt = np.asfortranarray(spec)
+    elif lay == "strided32":
+        big = np.zeros((nk, 2 * nth), dtype=np.float32)
+        big[:, ::2] = spec
+        alt = big[:, ::2]
+    elif lay == "c64":
+        alt = spec.astype(np.float64)
+    elif lay == "fortran64":
+        alt = np.asfortranarray(spec.astype(np.float64))
+    else:
+        alt = np.ascontiguousarray(spec.T).T
+    try:
+        laba = np.asarray(part(alt, ihmax))
+        if laba.shape == lab.shape and np.array_equal(laba, lab):
+            rec.ok("layout_random", "%s|%s" % (lay, szc))
+        else:
+            rec.bad("layout_random", "%s|%s" % (lay, szc), {"spec": spec, "ihmax": ihmax, "layout": lay, "labels": lab, "labels_other_layout": laba,
+                                                            "flags": {"c": bool(alt.flags.c_contiguous), "f": bool(alt.flags.f_contiguous)}},
+                    "watershed-reads-non-contiguous-memory")
+    except Exception as e:
+        rec.bad("layout_random", "%s|%s" % (lay, szc), {"layout": lay, "raised": repr(e)[:300]}, "watershed-rejects-array-layout")
     # all circular shifts (or a sample of them on large grids)
     ks = range(1, nth) if nth <= 12 else sorted(set(int(k) for k in rng.integers(1, nth, 6)))
     base = W.as_sets(lab)
